@@ -281,7 +281,7 @@ def case(args):
 
 def run(chk):
     if not getattr(chk, 'no_lean', False):
-        chk.lean_stage([META['lean_module'], 'Placement.Props.C02Merge'], exe=True)
+        chk.lean_stage([META['lean_module'], 'Placement.Props.C02Merge', 'Placement.Props.C02Loop'], exe=True)
     n_states, nq = (1500, 4) if chk.tier == 'quick' else (30000, 4)
     procs = min(16, os.cpu_count() or 4)
     ctx = mp.get_context('fork')
